@@ -105,6 +105,7 @@ FOLLOWUP_MAX_STACK = 1  # the differential follow-up layer is run from documents
 # --------------------------------------------------------------------------- evaluation of one transition
 
 _memo: dict = {}
+MINIMISE_CAP = 60  # per document: failing transitions minimised before falling back to raw reports
 
 
 def evaluate(prop, doc, hist):
@@ -243,6 +244,11 @@ def work(unit):
                 sample = {"doc": doc.text(), "history": [e2.show_op(o) for o in h2], "result": outcome[1]}
             for cls, detail in found:
                 counters["raw_failures"] += 1
+                if counters["raw_failures"] > MINIMISE_CAP:
+                    # a flood of failures (a badly broken tree): stop minimising, report the raw case
+                    counters["not_minimised"] += 1
+                    failures.setdefault((doc, h2, cls), [0, detail])[0] += 1
+                    continue
                 for d2, hm in minimal(prop, doc, h2, cls):
                     ent = failures.get((d2, hm, cls))
                     if ent is None:
